@@ -1,5 +1,69 @@
-From PV Require Import Lib.Base Model.ConfInt.
-Open Scope Q_scope.
-Theorem C13_two_sided_level_split : forall cl, tail_level cl CITwoSided == (1 - cl) / 2 /\ tail_level cl CILower == 1 - cl.
-Proof. intros cl. split; reflexivity. Qed.
-Print Assumptions C13_two_sided_level_split.
+(* C13 -- hypergeom_conf_interval returns exact test-inversion bounds that cover.
+   Statements only; proofs in Proofs/HgciProofs.v, Proofs/BisectProofs.v, Lib/HyperMono.v, Proofs/PvaluesProofs.v. *)
+From Coq Require Import ZArith QArith List.
+From PV Require Import Lib.Base Model.TailsZ Model.ConfInt.
+From mathcomp Require Import all_ssreflect.
+From PV Require Import Lib.Tails Lib.Binom Lib.HyperMono Proofs.PvaluesProofs Proofs.HgciProofs.
+Local Open Scope nat_scope.
+
+(* L6: P_G(X >= x) is nondecreasing and P_G(X <= x) nonincreasing in the number G of good items, all N, n, x *)
+Theorem C13_tails_monotone_in_G : forall N n x G G', n <= N -> G <= G' -> G' <= N ->
+  (hyper_upper_q N G n x <= hyper_upper_q N G' n x)%Q /\ (hyper_lower_q N G' n x <= hyper_lower_q N G n x)%Q.
+Proof.
+  intros N n x G G' nN GG G'N. split; [exact (@hyper_upper_q_mono_G N n x G G' nN GG G'N)|exact (@hyper_lower_q_anti_G N n x G G' nN GG G'N)].
+Qed.
+Print Assumptions C13_tails_monotone_in_G.
+
+(* at the ends of the range compatible with the sample (x <= G <= N-(n-x)) the tails are 1, below x the upper
+   tail is 0: so for any level a in (0,1] the searches below are over a non-empty monotone range *)
+Theorem C13_tails_at_range_ends : forall N n x, x <= n -> n <= N ->
+  (hyper_upper_q N (N - (n - x)) n x == 1)%Q /\ (hyper_lower_q N x n x == 1)%Q /\
+  (forall G, G < x -> (hyper_upper_q N G n x == 0)%Q).
+Proof.
+  intros N n x xn nN. split; [exact (tail_top_is_one xn nN)|split; [exact (tail_bottom_is_one xn nN)|]].
+  intros G Gx. exact (@tail_below_x_is_zero N G n x nN Gx).
+Qed.
+Print Assumptions C13_tails_at_range_ends.
+
+(* lower limit: the smallest G with P_G(X >= x) >= a (a = tail level); integers by construction (nat) *)
+Theorem C13_lower_limit_is_smallest : forall n x N (cl : Q) alt, n <= N -> x <= n ->
+  wants_lower alt x = true -> (tail_level cl alt <= 1)%Q ->
+  let lo := (hypergeom_conf_interval n x N cl alt).1 in
+  [/\ x <= lo, lo <= N - (n - x), (tail_level cl alt <= hyper_upper_q N lo n x)%Q &
+      forall G, x <= G -> G < lo -> ~ (tail_level cl alt <= hyper_upper_q N G n x)%Q].
+Proof.
+  intros n x N cl alt nN xn wl a1. apply (@hgci_lower_is_smallest n x N cl alt nN xn wl).
+  rewrite (tail_top_is_one xn nN). exact a1.
+Qed.
+Print Assumptions C13_lower_limit_is_smallest.
+
+(* upper limit: the largest G with P_G(X <= x) >= a *)
+Theorem C13_upper_limit_is_largest : forall n x N (cl : Q) alt, n <= N -> x <= n ->
+  wants_upper alt n x = true -> (tail_level cl alt <= 1)%Q ->
+  let hi := (hypergeom_conf_interval n x N cl alt).2 in
+  [/\ x <= hi, hi <= N - (n - x), (tail_level cl alt <= hyper_lower_q N hi n x)%Q &
+      forall G, hi < G -> G <= N - (n - x) -> ~ (tail_level cl alt <= hyper_lower_q N G n x)%Q].
+Proof.
+  intros n x N cl alt nN xn wu a1. apply (@hgci_upper_is_largest n x N cl alt nN xn wu).
+  rewrite (tail_bottom_is_one xn nN). exact a1.
+Qed.
+Print Assumptions C13_upper_limit_is_largest.
+
+(* the limits that are not searched are 0 and N; the optional starting point G is not an input of the model *)
+Theorem C13_trivial_limits : forall n x N cl alt,
+  (wants_lower alt x = false -> (hypergeom_conf_interval n x N cl alt).1 = 0) /\
+  (wants_upper alt n x = false -> (hypergeom_conf_interval n x N cl alt).2 = N).
+Proof. intros n x N cl alt. rewrite /hypergeom_conf_interval. split => ->; reflexivity. Qed.
+Print Assumptions C13_trivial_limits.
+
+(* coverage: for every true G, the total weight of the outcomes x whose one-sided p-value is <= c/d is at most
+   c/d of C(N,n): each limit misses the true G with probability at most its tail level *)
+Theorem C13_test_inversion_covers : forall N G n c d, G <= N ->
+  mass_up (accept c d 'C(N, n)) (whyper N G n) * d <= c * 'C(N, n) /\
+  mass_lo (accept c d 'C(N, n)) (whyper N G n) * d <= c * 'C(N, n).
+Proof. intros N G n c d le. split; [exact (@hyper_greater_valid N G n c d le)|exact (@hyper_less_valid N G n c d le)]. Qed.
+Print Assumptions C13_test_inversion_covers.
+
+Example C13_nonvacuous :
+  hypergeom_conf_interval 10 5 20 (19 # 20) CITwoSided = (6, 14) /\ hypergeom_conf_interval 2 1 5 (19 # 20) CIUpper = (0, 4).
+Proof. vm_compute. split; reflexivity. Qed.
